@@ -703,7 +703,7 @@ func genC16Case(maxHops int) *rapid.Generator[C16Case] {
 			c.Hops = rapid.SliceOfN(rapid.Custom(func(t *rapid.T) C16Hop {
 				return C16Hop{Code: pFrom(t, "code", c16Codes), Loc: genC16URL(t, inPlay, true)}
 			}), n, n).Draw(t, "hops")
-			c.Final = pFrom(t, "final", []int{200, 200, 204, 404, 500})
+			c.Final = pFrom(t, "final", []int{200, 200, 204, 404, 500, 299, 300, 304, 408, 429, 499, 503, 599, 101})
 		}
 		return c
 	})
@@ -911,16 +911,16 @@ func runC16Deliver(c C16Case) *pOutcome {
 				out.NonTriv = true
 			}
 			if !errors.Is(result.Err, ErrPolicyDenied) {
-				out.Failure = pFail("C16", "denial-not-reported", k, "hop %d URL %q must be denied %v (host %q) and no request was sent, but Deliver returned %+v instead of ErrPolicyDenied", k, next, v.Reasons, v.Host, result)
+				out.Failure = pFail("C16,C06", "denial-not-reported", k, "hop %d URL %q must be denied %v (host %q) and no request was sent, but Deliver returned %+v instead of ErrPolicyDenied", k, next, v.Reasons, v.Host, result)
 				return out
 			}
 			if obs.Kind != "dead" || obs.Reason != "policy_denied" {
-				out.Failure = pFail("C16", "denial-not-dead-lettered", k, "hop %d URL %q denied %v: message settled as %s, want dead:policy_denied without retry", k, next, v.Reasons, obs)
+				out.Failure = pFail("C16,C06", "denial-not-dead-lettered", k, "hop %d URL %q denied %v: message settled as %s, want dead:policy_denied without retry", k, next, v.Reasons, obs)
 				return out
 			}
 			at, err := st.ListAttempts(queue.AttemptListRequest{EventID: "m", Limit: 10})
 			if err != nil || len(at.Items) != 1 || at.Items[0].Attempt != 1 || at.Items[0].Outcome != queue.AttemptOutcomeDead || at.Items[0].DeadReason != "policy_denied" {
-				out.Failure = pFail("C16", "denial-not-dead-lettered", k, "hop %d URL %q denied: attempt records %+v (%v), want one dead/policy_denied record at attempt 1", k, next, at.Items, err)
+				out.Failure = pFail("C16,C06", "denial-not-dead-lettered", k, "hop %d URL %q denied: attempt records %+v (%v), want one dead/policy_denied record at attempt 1", k, next, at.Items, err)
 				return out
 			}
 		default:
@@ -945,6 +945,31 @@ func runC16Deliver(c C16Case) *pOutcome {
 	if obs.Kind == "dead" {
 		out.label("dead:" + obs.Reason)
 	}
+	// (4) C06 through the real deliverer: an answered delivery settles by the status of the last
+	// answer (attempt 1 of retry.max 3), and the deliverer reports exactly that status
+	if result.Err == nil && len(rt.reqs) > 0 {
+		last := c.Final
+		if last == 0 {
+			last = 200
+		}
+		if n := len(rt.reqs); n <= len(c.Hops) {
+			last = c.Hops[n-1].Code
+		}
+		if result.StatusCode != last {
+			out.Failure = pFail("C06", "status-misreported", len(rt.reqs)-1, "the last answer had status %d, Deliver reported %d", last, result.StatusCode)
+			return out
+		}
+		exp := c06OracleStatus(last, 1, target.Retry.Max)
+		ok := exp.Kind == obs.Kind && (exp.Kind != "dead" || exp.Reason == obs.Reason)
+		if exp.Kind == "notack" {
+			ok = obs.Kind == "retry" || (obs.Kind == "dead" && obs.Reason != "")
+		}
+		if !ok {
+			out.Failure = pFail("C06", "real-deliverer-settlement", len(rt.reqs)-1, "last answer %d after %d request(s): message settled as %s, the table says %s", last, len(rt.reqs), obs, exp)
+			return out
+		}
+		out.label("answered:" + c06StatusClass(last))
+	}
 	return out
 }
 
@@ -956,6 +981,27 @@ func TestProp_C16_Policy(t *testing.T) {
 		pEmit("C16", "TestProp_C16_Policy", c, out)
 		if out.Failure != nil {
 			verifkit.SaveFailing("TestProp_C16_Policy", c, out.Failure)
+			rt.Fatalf("%v", out.Failure)
+		}
+	})
+}
+
+// TestProp_C06_RealDeliverer runs the same worlds for C06's share: what the real HTTP deliverer
+// reports (a denial on the first or a later hop, the status of the last answer) must settle the
+// message as the statement's table says. Clauses that belong to C16 alone are not this test's.
+func TestProp_C06_RealDeliverer(t *testing.T) {
+	gen := genC16Case(11)
+	rapid.Check(t, func(rt *rapid.T) {
+		c := gen.Draw(rt, "case")
+		out := runC16Deliver(c)
+		if out.Failure != nil && out.Failure.Prop != "HARNESS" && !strings.Contains(out.Failure.Prop, "C06") {
+			out.Failure = nil
+			out.label("foreign-clause")
+		}
+		out.NonTriv = out.Labels["denied"] || out.Labels["redirect-followed"] || (out.Labels["allowed-delivery"] && !out.Labels["answered:status-2xx"])
+		pEmit("C06", "TestProp_C06_RealDeliverer", c, out)
+		if out.Failure != nil {
+			verifkit.SaveFailing("TestProp_C06_RealDeliverer", c, out.Failure)
 			rt.Fatalf("%v", out.Failure)
 		}
 	})
